@@ -90,6 +90,8 @@ RULE = ("tx: all 8 begin/commit/rollback fail-or-not combinations x all bodies o
         "fields, column count between the top-level and the flattened field count, mostly strict), each through all 4 entry points; "
         "plus a body-error-identity sweep (body returns sqlc.ErrNotFound / sql.ErrTxDone / context.Canceled / ... itself, 4 wrappers "
         "x 6 values x rollback ok/failing); "
+        "plus 8 failing-result-set cases (single-row query whose result set fails on its first rows.Next(), sqlmock RowError; x 4 "
+        "entry points); 25% of the tags of fully tagged shapes carry options (',type=char,length=16', ',range=[1:10]', ', optional' ...); "
         "plus 36 PAIRED cases (thorough: 400): two queries one after the other in the same driver process into two different fully tagged "
         "struct types that are both function-local types called T (reflect.Type.String() coincides; tags at other field positions, "
         "other field counts, swapped tags; 6 pairs x both orders x row/rows x conn/stmt/tx/txstmt at random); "
@@ -289,6 +291,11 @@ TAGS = list("abcdefgh") + ["userId", "userid", "User_ID", "UserID", "A", "B", "c
 KINDS = ["int"] * 9 + ["str"] * 6 + ["nint"] * 3 + ["opaque"]
 
 
+# options after the column name, as lib/store/builder documents them (and a few odd ones)
+TAG_OPTIONS = [",omitempty", ",x,y", ",", ",type=char,length=16", ",type=varchar", ",range=[1:10]", ", optional", ",default=0",
+               ",options=a|b", ",-"]
+
+
 def gen_fields(rng, depth, tagmode, pool, n=None):
     """tagmode: 'all' | 'none' | 'mixed' (applies to this level; inner levels random unless 'none')."""
     n = rng.randint(1, 4) if n is None else n
@@ -296,8 +303,8 @@ def gen_fields(rng, depth, tagmode, pool, n=None):
     for _ in range(n):
         if tagmode == "all":
             tag = pool.pop() if pool else "z"
-            if rng.random() < 0.12:
-                tag += rng.choice([",omitempty", ",x,y", ","])
+            if rng.random() < 0.25:
+                tag += rng.choice(TAG_OPTIONS)
         elif tagmode == "mixed":
             tag = (pool.pop() if pool else "z") if rng.random() < 0.5 else rng.choice(["", ",opt"])
         else:
@@ -438,10 +445,11 @@ def gen_case_sensitive(rng):
     rng.shuffle(tags)
     decoy = tags.pop() if len(tags) > 2 and rng.random() < 0.5 else None
     extra = rng.choice(TAGS[:8])
-    fs = [{"tag": t, "ptr": rng.random() < 0.2, "k": rng.choice(["int", "int", "str"])} for t in tags + [extra]]
+    fs = [{"tag": t + (rng.choice(TAG_OPTIONS) if rng.random() < 0.4 else ""), "ptr": rng.random() < 0.2,
+           "k": rng.choice(["int", "int", "str"])} for t in tags + [extra]]
     cols = tags + [extra] + ([decoy] if decoy else [])
     rng.shuffle(cols)
-    kinds = {f["tag"]: f["k"] for f in fs}
+    kinds = {tag_name(f): f["k"] for f in fs}
     mode = rng.choice(["row", "rows"])
     rows = [[gen_cell(rng, kinds.get(c, "int"), 0.0, True) for c in cols] for _ in range(1 if mode == "row" else rng.randint(1, 3))]
     shape = {"d": "slice", "ptr": rng.random() < 0.5, "e": {"fs": fs}} if mode == "rows" else {"d": "elem", "ptr": False, "e": {"fs": fs}}
@@ -465,6 +473,20 @@ def gen_embedded_arity(rng):
     rows = [[gen_cell(rng, kinds[i], 0.0, True) for i in range(nc)] for _ in range(1 if mode == "row" else rng.randint(1, 2))]
     shape = {"d": "slice", "ptr": rng.random() < 0.5, "e": {"fs": fs}} if mode == "rows" else {"d": "elem", "ptr": False, "e": {"fs": fs}}
     return {"t": "orm", "mode": mode, "strict": rng.random() < 0.75, "shape": shape, "cols": cols, "rows": rows}
+
+
+def gen_rowerr(rng):
+    """single-row query (strict or partial, int64 / string / tagged struct destination) whose result set fails on its
+    first rows.Next()"""
+    if rng.random() < 0.5:
+        k = rng.choice(["int", "str"])
+        e, cols, row = {"k": k}, ["c0"], [gen_cell(rng, k, 0.0, True)]
+    else:
+        fs = [{"tag": "id,type=char,length=16", "ptr": False, "k": "int"}, {"tag": "name", "ptr": rng.random() < 0.3, "k": "str"}]
+        cols = rng.choice([["id", "name"], ["name", "id"]])
+        e, row = {"fs": fs}, [(7 if c == "id" else "n") for c in cols]
+    return {"t": "orm", "rowerr": True, "mode": "row", "strict": rng.random() < 0.5,
+            "shape": {"d": "elem", "ptr": False, "e": e}, "cols": cols, "rows": [row]}
 
 
 def gen_rows(rng, ckinds):
@@ -614,6 +636,8 @@ def generate(rng, tier, n):
     nfam = max(1, n // 30) if tier != "thorough" else max(1, n // 100)
     for _ in range(nfam):
         cases += gen_family(rng, 4 if tier != "thorough" else 120)
+    for _ in range(8):
+        cases.append(gen_rowerr(rng))
     for _ in range(max(12, n // 20)):
         cases.append(gen_case_sensitive(rng))
         cases.append(gen_embedded_arity(rng))
@@ -692,6 +716,8 @@ def search(rng, problems):
     out += tx_ctx_sweep(rng)
     out += tx_sentinel_sweep(rng)
     out += boundary_orm()
+    for _ in range(6):
+        out.append(gen_rowerr(rng))
     for _ in range(10):
         out.append(gen_case_sensitive(rng))
         out.append(gen_embedded_arity(rng))
@@ -873,7 +899,7 @@ def status_term(o):
     e = o.get("err")
     if e is None:
         return "(Ok tt)"
-    code = {"notfound": 1, "notmatch": 2, "unsupported": 3}.get(e.get("is", ""))
+    code = {"notfound": 1, "notmatch": 2, "unsupported": 3, "rowerr": 6}.get(e.get("is", ""))
     if code is None:
         code = 4 if (not e.get("is") and e.get("msg", "").startswith("sql: ")) else 9
     return "(Err %d%%nat)" % code
@@ -925,6 +951,8 @@ def encode_stream(case, obs):
 
 
 def encode(case, obs):
+    if case["t"] == "orm" and case.get("rowerr"):
+        return "CRowErr (%s)" % encode_orm(case, obs)
     if case["t"] == "stream":
         return encode_stream(case, obs)
     if case["t"] == "pair":
@@ -966,6 +994,9 @@ def bucket(case, obs):
         out.append("tx:result=" + ("nil" if obs.get("err") is None else "error"))
         return out
     e = case["shape"]["e"]
+    if case.get("rowerr"):
+        return ["orm", "orm:rowerr", "orm:rowerr:via=" + case.get("via", "conn"),
+                "obs:err=" + ((obs.get("err") or {}).get("is") or "nil")]
     out = ["orm", "orm:" + case["mode"], "orm:strict" if case["strict"] else "orm:partial", "orm:rows=%d" % len(case["rows"]),
            "orm:via=" + case.get("via", "conn"), "orm:ctxform" if case.get("ctx") else "orm:plainform"]
     if obs.get("tx") is not None:
@@ -1006,6 +1037,9 @@ def explain(case, obs):
         return ("observed Transact behaviour contradicts C11.Spec.tx_allowed: with these driver faults and this body the "
                 "returned error / the Begin-Exec-Commit-Rollback log is not the one the outcome table allows "
                 "(nil result <=> exactly one successful Commit; otherwise exactly one Rollback and a non-nil result)")
+    if case.get("rowerr"):
+        return ("single-row query on a result set that FAILS on its first rows.Next() (entry point '%s'): the driver's error must "
+                "come back - not ErrNotFound, not nil - and inside Transact the transaction must roll back" % case.get("via", "conn"))
     return ("observed query result contradicts C11.Exec.spec_orm: destination not filled by column name / by position, "
             "missing ErrNotFound on an empty result, strict form accepted fewer columns than fields / partial form rejected them, "
             "on entry point '%s'; or a query failing inside Transact did not lead to exactly one Rollback" % case.get("via", "conn"))
